@@ -7,7 +7,9 @@
          OR < AND < NOT < comparison < || < additive < multiplicative < unary minus
        with left associativity (left operand at the operator's level, right operand one level
        above, parentheses reset)                                        ([wf]),
-     - and which EXPLAIN tree ClickHouse prints for such a reading     ([ref]).
+     - and which EXPLAIN tree ClickHouse prints for such a reading     ([ref]),
+     - plus the readings the precedence climb gives outside the layered grammar — a prefix NOT in
+       the operand position of a tighter operator                      ([wfx], see there).
 
    Readings fixed by DESIGN.md §7 / the experiments on the code where the property text is silent:
      - NOT immediately followed by "(" is the function-call spelling not(...), an atom ([NotCall]);
@@ -168,6 +170,47 @@ Fixpoint wfb (e : sexpr) : bool :=
   end.
 
 Definition wf (e : sexpr) : Prop := wfb e = true.
+
+(* ---- extension: the readings of precedence climbing outside the layered grammar ----
+   The precedence climb also assigns a reading to token strings that the layered grammar does not
+   derive: a prefix NOT (level 3) may stand where the operand of a tighter operator is expected —
+   as the right operand of any binary operator (a = NOT b, a + NOT b * c) or under a unary minus
+   (- NOT a = b) — and then, as every prefix operator, extends as far to the right as it can
+   (a + NOT(b * c), -(NOT(a = b))).  [wfx] describes exactly those trees: an operand position may
+   hold a prefix NOT whatever the level, and what stands to the LEFT of a binary operator must not
+   end (along its right edge, parentheses shielding) in an operator that binds less tightly —
+   otherwise that operator would have taken the rest.  On layered trees the two notions coincide
+   (ExprProof.wf_wfx). *)
+
+(* the lowest level met along the right edge of [print e] *)
+Fixpoint redge (e : sexpr) : nat :=
+  match e with
+  | Bin op _ r => Nat.min (op_level op) (redge r)
+  | Not _ e1 => Nat.min 3 (redge e1)
+  | Neg e1 => Nat.min 8 (redge e1)
+  | Id _ | Num _ | Paren _ | NotCall _ _ => 9
+  end%nat.
+
+Definition is_not (e : sexpr) : bool := match e with Not _ _ => true | _ => false end.
+
+Fixpoint wfxb (e : sexpr) : bool :=
+  match e with
+  | Id s => ident_ok s
+  | Num n => n <? 18446744073709551616
+  | Paren e1 => wfxb e1
+  | NotCall _ e1 => wfxb e1
+  | Not _ e1 => wfxb e1 && Nat.leb 3 (level e1) && negb (starts_with_paren e1)
+  | Neg e1 =>
+      wfxb e1 && (Nat.leb 8 (level e1) || is_not e1) &&
+      match e1 with Num n => n <=? 9223372036854775808 | _ => true end
+  | Bin op l r =>
+      wfxb l && wfxb r &&
+      Nat.leb (op_level op) (redge l) &&                       (* nothing looser on l's right edge *)
+      (Nat.ltb (op_level op) (level r) || is_not r) &&         (* strictly above, or a prefix NOT  *)
+      negb (is_concat op && (is_paren_concat l || is_paren_concat r))
+  end.
+
+Definition wfx (e : sexpr) : Prop := wfxb e = true.
 
 (* what may follow the expression: nothing, or a token that cannot continue an expression *)
 Definition continuing_tokens : list N :=
